@@ -352,6 +352,13 @@ def _worker(args):
     except BaseException as ex:  # noqa
         return ('error', {'jobname': name,
                           'trace': ''.join(traceback.format_exception(type(ex), ex, ex.__traceback__))[-6000:]})
+    finally:
+        # pool workers leave through os._exit (no atexit): remove this process's scratch root here
+        try:
+            from vp import sandbox
+            sandbox.cleanup()
+        except Exception:   # noqa
+            pass
 
 
 def run_jobs(mod, tier, seed, suppressed):
